@@ -142,5 +142,13 @@ void spki_table_notify_diff(struct spki_table *new_table, struct spki_table *old
  */
 void spki_table_swap(struct spki_table *a, struct spki_table *b);
 
+/**
+ * @brief Swap tommy_hashlin and tommy_list of the argument tables without taking the table locks
+ * @details The caller must hold the write locks of both tables.
+ * @param[in] a
+ * @param[in] b
+ */
+void spki_table_swap_locked(struct spki_table *a, struct spki_table *b);
+
 #endif
 /** @} */
